@@ -23,7 +23,7 @@ def known_rule(cls, what, doc):
         parts = [p.strip() for p in m.group(1).split(";")]
         if parts and all(p.endswith(": usedUserTypes") for p in parts) and doc.count("allOf") >= 2:
             return KNOWN_USED
-        if parts and all(p.endswith(": example-regex") or p.endswith(": usedUserTypes") for p in parts) and "regex" in doc:
+        if parts and all(p.endswith(": example-regex") or p.endswith(": usedUserTypes") for p in parts):
             return KNOWN_REGEX if any(p.endswith(": example-regex") for p in parts) else None
     return None
 
